@@ -1,12 +1,13 @@
 import Amgcl.Proofs.LockstepRichardson
 import Amgcl.Proofs.LockstepBiCGStab
 import Amgcl.Proofs.LockstepFGMRES
+import Amgcl.Proofs.LockstepLGMRES
 import Amgcl.Model.LockstepPreonly
 import Amgcl.Properties.C12
 /-!
-# C12 (continued) — the other distributed Krylov solvers: Richardson, BiCGStab, GMRES, FGMRES
+# C12 (continued) — the other distributed Krylov solvers: Richardson, BiCGStab, GMRES, FGMRES, LGMRES, preonly
 
-`amgcl/mpi/solver/{richardson,bicgstab,gmres,fgmres}.hpp` instantiate the SERIAL templates with
+`amgcl/mpi/solver/{richardson,bicgstab,gmres,fgmres,lgmres,preonly}.hpp` instantiate the SERIAL templates with
 `InnerProduct = mpi::inner_product`.  `Model/Lockstep{Richardson,BiCGStab,GMRES}.lean` write the statements of the four
 `operator()`s in the instruction set of `Model/Lockstep.lean` (the scalar state of a rank is the record of the
 solver's scalar locals; for GMRES/FGMRES it contains the rank's own copy of `H, s, cs, sn`, and the basis vectors
@@ -229,6 +230,61 @@ theorem lockstep_fgmres_truthful (A : CRS K) (P : Vec K → Vec K) (C : DCtx K) 
     simpa [Run.out] using this
   · rw [h4]; exact ht
 
+/-! ## LGMRES -/
+
+/-- **LGMRES, distributed = serial** — for whatever augmentation vectors and pointers the solver object carries from
+earlier calls (`always_reset` on or off): every rank keeps its own copy of the pointer members `ws`, `outer_v`, selects
+the same vectors, and the object's members after the call are the parts of the serial object's members. -/
+theorem lockstep_lgmres_refines_serial (A : CRS K) (P : Vec K → Vec K) (C : DCtx K) (hS : Setup A P C)
+    (prm : Solver.LGMRES.Params K) (sqrt : K → K) (eps : K) (ws : Solver.LGMRES.Work K) (f x0 : Vec K)
+    (hf : f.size = C.part.sum) (hx : x0.size = C.part.sum) (hr : ws.r.size = C.part.sum)
+    (hv : ∀ i, (ws.vs i).size = C.part.sum) (ho : ∀ i, (ws.odata i).size = C.part.sum) :
+    ∃ ds', drun C (Lockstep.LGMRES.prog prm sqrt eps)
+        (distribute C.part (Lockstep.LGMRES.initState ws f x0)) = some ds' ∧
+      (∀ r, r < C.part.length → Except.ok (Lockstep.LGMRES.outOf (ds'.scal r))
+        = (Solver.LGMRES.run prm (innerProductSerial C.conj) sqrt eps A P ws f x0).out) ∧
+      ds'.vec Lockstep.LGMRES.vX
+        = splitVec (Solver.LGMRES.run prm (innerProductSerial C.conj) sqrt eps A P ws f x0).x C.part ∧
+      concatVec (ds'.vec Lockstep.LGMRES.vX)
+        = (Solver.LGMRES.run prm (innerProductSerial C.conj) sqrt eps A P ws f x0).x := by
+  have hsize : ∀ v, ((Lockstep.LGMRES.initState ws f x0).vec v).size = C.part.sum := by
+    intro v
+    unfold Lockstep.LGMRES.initState
+    simp only
+    split_ifs
+    · exact hf
+    · exact hx
+    · exact hr
+    · exact hf
+    · exact hv _
+    · exact ho _
+  obtain ⟨ds', g1, g2, g3⟩ := lockstep_refines_serial A P C hS (Lockstep.LGMRES.prog prm sqrt eps) _ hsize
+  rw [Lockstep.LGMRES.prog_eq_run]
+  exact ⟨ds', g1, fun r hr => by rw [g2 r hr]; rfl, (g3 _).1, (g3 _).2⟩
+
+/-- **… and every rank reports the true global (preconditioned) residual of the assembled solution.** -/
+theorem lockstep_lgmres_truthful (A : CRS K) (P : Vec K → Vec K) (C : DCtx K) (hS : Setup A P C)
+    (prm : Solver.LGMRES.Params K) (sqrt : K → K) (eps : K) (ws : Solver.LGMRES.Work K) (f x0 : Vec K)
+    (hf : f.size = C.part.sum) (hx : x0.size = C.part.sum) (hr : ws.r.size = C.part.sum)
+    (hv : ∀ i, (ws.vs i).size = C.part.sum) (ho : ∀ i, (ws.odata i).size = C.part.sum)
+    (it : Nat) (res : K) (x : Vec K) (w : Solver.LGMRES.Work K)
+    (h : Solver.LGMRES.solve prm (innerProductSerial C.conj) sqrt eps A P ws f x0 = .ok (it, res, x, w)) :
+    ∃ ds', drun C (Lockstep.LGMRES.prog prm sqrt eps)
+        (distribute C.part (Lockstep.LGMRES.initState ws f x0)) = some ds' ∧
+      (∀ r, r < C.part.length → Lockstep.LGMRES.outOf (ds'.scal r) = (it, res)) ∧
+      concatVec (ds'.vec Lockstep.LGMRES.vX) = x ∧
+      res = reported (prologueA prm.nsSearch (innerProductSerial C.conj) sqrt eps f)
+              (nrmA (innerProductSerial C.conj) sqrt
+                (BiCGStab.Rf prm.pside P f A (concatVec (ds'.vec Lockstep.LGMRES.vX)))) := by
+  obtain ⟨ds', h1, h2, _, h4⟩ := lockstep_lgmres_refines_serial A P C hS prm sqrt eps ws f x0 hf hx hr hv ho
+  have ht := C01.lgmres_truthful prm _ sqrt eps A P ws f x0 it res x w h
+  rw [Solver.LGMRES.solve, Run.toExcept_ok] at h
+  rw [h] at h2 h4
+  refine ⟨ds', h1, fun r hr => ?_, h4, ?_⟩
+  · have := h2 r hr
+    simpa [Run.out] using this
+  · rw [h4]; exact ht
+
 /-! ## preonly -/
 
 /-- **preonly, distributed = serial**: `P.apply(rhs, x)` on every rank gives the parts of the serial `P rhs`; the
@@ -331,6 +387,26 @@ example : ∃ ds', drun exCd (Lockstep.FGMRES.prog exFg id 0)
   obtain ⟨ds', h1, h2, _, h4⟩ := lockstep_fgmres_truthful exA exP exCd exSetup exFg id 0 _ _ _
     (by decide) (by decide) (fun _ => size_replicate3) (fun _ => size_replicate3) it res x w h
   exact ⟨ds', h1, it, res, h2, h4⟩
+
+def exLg : Solver.LGMRES.Params Rat := ⟨⟨3, 0, 0, false⟩, 1, 1, false, .right⟩
+
+/-- LGMRES(1,1) with right preconditioning: three cycles, the second and third use the augmentation vector, `*ws[0]`
+is overwritten by `P.apply(dx, tmp)` -/
+example : ∃ ds', drun exCd (Lockstep.LGMRES.prog exLg id 0)
+      (distribute exCd.part (Lockstep.LGMRES.initState (Solver.LGMRES.Work.fresh 3) #[1, 2, 3] #[0, 0, 0])) = some ds' ∧
+    ∃ it res, (∀ r, r < 3 → Lockstep.LGMRES.outOf (ds'.scal r) = (it, res)) ∧
+      res = reported (prologueA false (innerProductSerial id) id 0 #[1, 2, 3])
+        (nrmA (innerProductSerial id) id (residual #[1, 2, 3] exA (concatVec (ds'.vec Lockstep.LGMRES.vX)))) := by
+  obtain ⟨⟨it, res, x, w⟩, h⟩ := ok_of_toBool _ (by decide +kernel :
+    (Solver.LGMRES.solve exLg (innerProductSerial id) id 0 exA exP (Solver.LGMRES.Work.fresh 3)
+      #[1, 2, 3] #[0, 0, 0]).toBool = true)
+  obtain ⟨ds', h1, h2, _, h4⟩ := lockstep_lgmres_truthful exA exP exCd exSetup exLg id 0 _ _ _
+    (by decide) (by decide) size_replicate3 (fun _ => size_replicate3) (fun _ => size_replicate3) it res x w h
+  exact ⟨ds', h1, it, res, h2, h4⟩
+
+example : (match Solver.LGMRES.solve exLg (innerProductSerial id) id 0 exA exP (Solver.LGMRES.Work.fresh 3)
+      #[1, 2, 3] #[0, 0, 0] with
+    | .ok (it, _, _, _) => decide (it = 3) | _ => false) = true := by decide +kernel
 
 /-- the runs above are not trivial: the serial models (hence, by the theorems, EVERY rank of the distributed runs)
 make two passes / two Arnoldi steps -/
